@@ -640,6 +640,16 @@ class SBytes:
         self.b = _len(self.d)
         return self
 
+    def extend(self, o):
+        if self.kind != 'bytearray':
+            raise AttributeError("'%s' object has no attribute 'extend'" % self.kind)
+        self.__iadd__(o)
+
+    def append(self, v):
+        if self.kind != 'bytearray':
+            raise AttributeError("'%s' object has no attribute 'append'" % self.kind)
+        self.__iadd__(SBytes([v], kind='bytes'))
+
     def __mul__(self, k):
         return SBytes(self.items() * k, kind=self.kind)
 
